@@ -687,7 +687,7 @@ def function(
     return_val = (
         Return(
             value=ast.parse(
-                intermediate_repr["returns"]["return_type"]["default"].strip("`")
+                str(intermediate_repr["returns"]["return_type"]["default"]).strip("`")
             )
             .body[0]
             .value,
